@@ -40,8 +40,46 @@ class SessionCheck(Check):
             stats["env"] = 1
         return case, stats
 
+    exhaustive_queries = (0, 1, 2, 3, 4, 7, 8, 9)
+    exhaustive_filters = ([], [0], [2], [3], [1], [0, 2])
+
+    def exhaustive_cases(self, rng, limit=4000):
+        """Bounded-exhaustive stream of the thorough tier: ALL instances with <= 2 jobs of <= 2 single-machine
+        operations on <= 2 machines with durations in {0,1,2}, ALL complete dispatch histories of each, a snapshot
+        and a battery of queries after every dispatch. Validation of the model and failing-input search, never a
+        stand-in for a theorem. A random sample of `limit` (instance, history, filter) triples is kept."""
+        import itertools
+
+        ops = [[[m], d] for m in (0, 1) for d in (0, 1, 2)]
+        jobs = [[o] for o in ops] + [[a, b] for a in ops for b in ops]
+        insts = [[j] for j in jobs] + [[a, b] for a in jobs for b in jobs]
+        out = []
+        for spec in insts:
+            seqs = set(itertools.permutations([j for j, job in enumerate(spec) for _ in job]))
+            for seq in seqs:
+                out.append((spec, seq))
+        rng.shuffle(out)
+        cases = []
+        for spec, seq in out[:limit]:
+            fs = list(rng.choice(self.exhaustive_filters)) if self.with_filters else []
+            nxt = [0] * len(spec)
+            evs = [[7]]
+            for j in seq:
+                evs.append([0, j, nxt[j], []])
+                nxt[j] += 1
+                evs.append([7])
+                qs = list(self.exhaustive_queries)
+                rng.shuffle(qs)
+                evs.extend([1, q, []] for q in qs)
+            cases.append({"spec": [[list(map(lambda o: [list(o[0]), o[1]], job))][0] for job in spec],
+                          "filters": fs, "events": evs})
+            self.note("exhaustive_cases")
+        return cases
+
     def gen_cases(self, rng, n):
         cases = []
+        if self.tier == "thorough" and n >= 1000:
+            cases.extend(self.exhaustive_cases(rng))
         for _ in range(n):
             case, stats = self.make_case(rng)
             cases.append(case)
